@@ -200,6 +200,11 @@ class Program:
                 sig = first + " -> " + ret
                 if re.search(r"\b" + re.escape(ty) + r"\b", sig) or not p0:
                     good.append(n)
+            if len(good) > 1:
+                # parameterless constructors: decide by the return type
+                exact = [n for n in good if re.search(r"\b" + re.escape(ty) + r"\b", self.raw[n][0][2])]
+                if len(exact) == 1:
+                    return exact[0]
             if len(good) == 1:
                 return good[0]
             if len(cands) == 1:
